@@ -247,7 +247,8 @@ def main():
         else:
             report("size", f"array_size(v{path}) raised {o['size'][1]}", rep)
     # (3) casts, functions and operator contexts over extracted values: Python is the oracle
-    doc = {"a": {"b": [10, {"c": "x y"}, None, True, 7], "s": " Str ", "n": None, "e": {}, "l": []}, "k": "top", "num": 42, "t": True, "f": False, "neg": -3, "arr": ["p", "q r", "s"]}
+    doc = {"a": {"b": [10, {"c": "x y"}, None, True, 7], "s": " Str ", "n": None, "e": {}, "l": []}, "k": "top", "num": 42, "t": True, "f": False, "neg": -3, "arr": ["p", "q r", "s"],
+           "payload": json.dumps({"k": "Hi", "n": 7, "t": True})}
     cur.execute("truncate table j")
     cur.execute(f"insert into j select 1, {lit_json(doc)}")
     ctx = [
@@ -260,6 +261,8 @@ def main():
         ("get_path(v, 'a.b[1].c')::varchar", "x y"), ("v:a:s::varchar", " Str "), ("v:num::varchar", "42"), ("v:t::varchar", "true"), ("length(v:k::varchar)", 3),
         ("try_parse_json('{bad') is null", True), ("parse_json('[1, 2]')[1]::int", 2), ("array_size(v:arr)", 3), ("array_size(v:a.b)", 5), ("array_size(split('a,b,c', ','))", 3),
         ("split('a,b', ',')[1]::varchar", "b"),
+        ("parse_json(v:payload::varchar):k::varchar", "Hi"), ("parse_json(v:payload::varchar):n::int + 1", 8), ("parse_json(v:payload::varchar):t::boolean and v:t::boolean", True),
+        ("object_construct('k', v:k::varchar):k::varchar", "top"), ("upper(parse_json(v:payload::varchar):k::varchar)", "HI"),
         ("object_construct('a', object_construct('b', 1, 'c', null))::varchar", '{"a":{"b":1}}'), ("object_construct('a', 1, 'b', null)::varchar", '{"a":1}'), ("object_construct('b', null)::varchar", "{}"),
     ]
     for expr, want in ctx:
